@@ -116,6 +116,7 @@ impl SymPicture {
             }
         }
         let intra_pic = self.is_intra_picture();
+        let umv = matches!(&self.hdr, Hdr::Std(h) if h.plus.as_ref().map_or(false, |p| p.ufep == 1 && p.umv));
         let mut offs = Vec::with_capacity(self.mbs.len() + 1);
         let mut hdr_ends = Vec::with_capacity(self.mbs.len());
         for (i, mb) in self.mbs.iter().enumerate() {
@@ -126,7 +127,7 @@ impl SymPicture {
                 }
                 w.code(MCBPC_STUFFING);
             }
-            hdr_ends.push(encode_mb(&mut w, mb, intra_pic));
+            hdr_ends.push(encode_mb_ex(&mut w, mb, intra_pic, umv));
         }
         offs.push(w.nbits);
         (w, offs, hdr_ends)
@@ -197,6 +198,30 @@ pub fn dquant_code(d: i8) -> u32 {
 
 /// Returns the bit offset at which the macroblock's header ends (= where its block data starts).
 pub fn encode_mb(w: &mut BitWriter, mb: &SymMb, intra_pic: bool) -> usize {
+    encode_mb_ex(w, mb, intra_pic, false)
+}
+
+/// One component of an Annex D (unrestricted) vector difference, Table D.3: "1" is zero; otherwise "0", the
+/// bits of |v| below its leading one each followed by "1", then the sign and "0".
+pub fn put_umv(w: &mut BitWriter, v: i32) {
+    if v == 0 {
+        w.put(1, 1);
+        return;
+    }
+    w.put(0, 1);
+    let n = v.unsigned_abs();
+    let k = 31 - n.leading_zeros();
+    for i in (0..k).rev() {
+        w.put((n >> i) & 1, 1);
+        w.put(1, 1);
+    }
+    w.put((v < 0) as u32, 1);
+    w.put(0, 1);
+}
+
+/// `umv`: vector differences in the Annex D syntax (only the bit syntax; the reconstruction model does not
+/// describe unrestricted vectors, so such pictures are for self-consistency checks only).
+pub fn encode_mb_ex(w: &mut BitWriter, mb: &SymMb, intra_pic: bool, umv: bool) -> usize {
     match mb {
         SymMb::Raw(groups) => {
             for g in groups {
@@ -238,6 +263,8 @@ pub fn encode_mb(w: &mut BitWriter, mb: &SymMb, intra_pic: bool) -> usize {
                         if v[c] == 99 {
                             // fault injection: thirteen zero bits are no MVD code
                             w.put(0, 13);
+                        } else if umv {
+                            put_umv(w, v[c]);
                         } else {
                             w.code(mvd_code(v[c]));
                         }
